@@ -16,6 +16,7 @@ package main
 //   ser-hd <pub> <priv> | de-hd <bytes>     → ok <bytes> | ok <pub> <priv> | err | panic
 //   hexenc <bytes> | hexdec <ascii bytes>   → ok <bytes> | err
 //   render <15 fields>                      → ok <json> rt=same|lossy      (json.Marshal; rt: Unmarshal gives the struct back)
+//   parse <json>                            → ok <15 fields> | err         (getKeystoreFromJson; canonical documents only)
 //   import-probe <pass-ok> <15 fields> <coin>  → err-cointype | err-accttype | err-hex | err-malformed | err-pass | past-decoding
 //   put-* / fetch-* / del-* / init-child / update-child / get-child / export / raw-put / raw-del / dump   (see execBucket)
 //
@@ -376,6 +377,22 @@ func (x *kscExec) Exec(a []string) string {
 				rt = "same"
 			}
 			return "ok " + hexTok(js) + " rt=" + rt
+		})
+	case a[0] == "parse" && len(a) == 2:
+		js, ok := unhexTok(a[1])
+		if !ok {
+			return "bad-op"
+		}
+		return catchPanic(func() string {
+			k, err := keystore.VerifKeystoreFromJSON(js)
+			if err != nil {
+				return "err"
+			}
+			c, h := k.Crypto, k.HDpath
+			return fmt.Sprintf("ok %s %d %s %s %s %s %s %s %s %s %d %d %d %d %d", hexTok([]byte(k.Remarks)), c.Version, hexTok([]byte(c.Cipher)),
+				hexTok([]byte(c.EntropyEnc)), hexTok([]byte(c.KDF)), hexTok([]byte(c.PubParams)), hexTok([]byte(c.PrivParams)),
+				hexTok([]byte(c.CryptoKeyPubEnc)), hexTok([]byte(c.CryptoKeyPrivEnc)), hexTok([]byte(c.CryptoKeyEntropyEnc)),
+				h.Purpose, h.Coin, h.Account, h.ExternalChildNum, h.InternalChildNum)
 		})
 	case a[0] == "import-probe" && len(a) == 18:
 		k, ok := parseKsFields(a[2:17])
